@@ -353,10 +353,10 @@ def _record_analysis(spec):
                 # products, the scatter about their mean is exactly zero - never negative, and its root is 0, not NaN
                 import speckit
                 rngi = np.random.default_rng(spec["seed"] + 61)
-                for P in (64, 100):
-                    blk = rngi.standard_normal(P)
-                    blk2 = rngi.standard_normal(P)
-                    xt, yt = np.tile(blk, 30), np.tile(blk2, 30)
+                for P, reps in ((64, 3), (64, 5), (100, 6), (64, 7), (100, 9), (64, 10), (64, 11), (100, 13), (64, 30)):   # the mean of K identical numbers
+                    blk = rngi.standard_normal(P)                                                                         # is exact only for some K
+                    blk2 = 0.5 * blk + rngi.standard_normal(P)
+                    xt, yt = np.tile(blk, reps), np.tile(blk2, reps)
                     r = speckit.compute_single_bin(np.vstack([xt, yt]), fs, 0.2 * fs, L=P, olap=0.0, win="hann", order=spec["order"], backend=spec["backend"])
                     m2 = float(r.XY_M2[0])
                     dev = float(r.Gxy_emp_dev[0])
